@@ -20,14 +20,7 @@ oracle      : the harness only executes and projects; Trace_Exemplar.tla evaluat
 """
 import json
 import os
-import sys
 from concurrent.futures import ThreadPoolExecutor
-
-# lib/vlib.main only strips a leading property id of the form C<nn> from the command line; growth ids (X<nn>) are
-# not in properties.jsonl.  bin/vcheck has already read the id when it loads this module: drop it here so that
-# `bin/vcheck X01 --tier quick|thorough [--seed N]` parses (lib/ and bin/ are not ours to edit).
-if len(sys.argv) > 1 and sys.argv[1].upper() == "X01":
-    del sys.argv[1]
 
 S = "Exemplar"
 NCPU = os.cpu_count() or 1
